@@ -35,6 +35,17 @@ static uint8_t VG_RC;       /* ghost round-constant LFSR */
 static uint8_t VG_RCJ;      /* ghost rc at witness round */
 static unsigned VG_J;       /* witness round index (arbitrary) */
 
+/* 128-bit ghost arithmetic for big-endian counters */
+typedef unsigned __int128 vu128;
+#define VBE128(p) \
+    (((vu128)(p)[0] << 120) | ((vu128)(p)[1] << 112) | ((vu128)(p)[2] << 104) | ((vu128)(p)[3] << 96) | \
+     ((vu128)(p)[4] << 88) | ((vu128)(p)[5] << 80) | ((vu128)(p)[6] << 72) | ((vu128)(p)[7] << 64) | \
+     ((vu128)(p)[8] << 56) | ((vu128)(p)[9] << 48) | ((vu128)(p)[10] << 40) | ((vu128)(p)[11] << 32) | \
+     ((vu128)(p)[12] << 24) | ((vu128)(p)[13] << 16) | ((vu128)(p)[14] << 8) | (vu128)(p)[15])
+#define VBE64(p) \
+    (((vu128)(p)[0] << 56) | ((vu128)(p)[1] << 48) | ((vu128)(p)[2] << 40) | ((vu128)(p)[3] << 32) | \
+     ((vu128)(p)[4] << 24) | ((vu128)(p)[5] << 16) | ((vu128)(p)[6] << 8) | (vu128)(p)[7])
+
 #define VCANARY() __CPROVER_assert(0, "canary-reachable")
 
 #endif
